@@ -18,6 +18,9 @@
 
 namespace rt
 {
+// end of the currently placed image (first byte of the trailing guard page); the harness itself never reads past it
+static const unsigned char* g_image_end = nullptr;
+
 // ------------------------------------------------------------------ output
 struct Out
 {
@@ -50,14 +53,29 @@ struct Out
     void F(const char* name, std::uint64_t bits) { tok(std::string("F ") + name + " " + hex64(bits)); }
     void K(const char* name, std::uint64_t bits) { tok(std::string("K ") + name + " " + hex64(bits)); }
     void Kb(const char* name, const void* p, std::size_t n) { tok(std::string("K ") + name + " " + hexbytes(p, n)); }
-    void A(const char* name, const void* p, std::size_t n) { tok(std::string("A ") + name + " " + hexbytes(p, n)); }
+    // clamp what the harness reads itself: a view that claims to extend past the buffer is reported, not followed
+    std::size_t clamp(const void* p, std::size_t n)
+    {
+        const unsigned char* c = static_cast<const unsigned char*>(p);
+        if(g_image_end && c <= g_image_end && n > static_cast<std::size_t>(g_image_end - c))
+        {
+            err("view extends past the buffer without an assertion");
+            return static_cast<std::size_t>(g_image_end - c);
+        }
+        return n;
+    }
+    void A(const char* name, const void* p, std::size_t n) { n = clamp(p, n); tok(std::string("A ") + name + " " + hexbytes(p, n)); }
     void C(const char* name) { tok(std::string("C ") + name + " {"); }
     void G(const char* name, std::uint64_t n, std::uint64_t bl)
     {
         tok(std::string("G ") + name + " " + std::to_string(n) + " " + std::to_string(bl) + " {");
     }
     void E(std::uint64_t i) { tok("E " + std::to_string(i) + " {"); }
-    void D(const char* name, std::uint64_t n, const void* p) { tok(std::string("D ") + name + " " + std::to_string(n) + " " + hexbytes(p, n)); }
+    void D(const char* name, std::uint64_t n, const void* p)
+    {
+        std::size_t m = clamp(p, static_cast<std::size_t>(n));
+        tok(std::string("D ") + name + " " + std::to_string(n) + " " + hexbytes(p, m));
+    }
     void end() { tok("}"); }
     void kv(const std::string& k, std::uint64_t v) { tok(k + "=" + std::to_string(v)); }
     void err(const std::string& what) { tok("XERR(" + what + ")"); }
@@ -198,6 +216,7 @@ struct GuardBuf
         mprotect(base, pages * page, PROT_READ | PROT_WRITE);
         std::memset(base, 0xEE, pages * page);
         unsigned char* p = base + pages * page - n;
+        g_image_end = base + pages * page;
         if(n) std::memcpy(p, data, n);
         if(readonly) mprotect(base, pages * page, PROT_READ);
         return p;
@@ -262,6 +281,31 @@ inline void install_handlers()
     _exit(71);
 }
 } // namespace rt
+
+// ------------------------------------------------------------- effort counter
+// Built with -finstrument-functions -DRT_COUNT_CALLS: counts function entries of
+// the (header-only, instantiated in this TU) sbepp code and abandons the case
+// when a budget is exceeded (kind 3).  Deterministic, no wall clock.
+#ifdef RT_COUNT_CALLS
+namespace rt
+{
+static volatile unsigned long long g_calls = 0;
+static unsigned long long g_budget = 0;
+static Guard* g_guard_ptr = nullptr;
+} // namespace rt
+extern "C" __attribute__((no_instrument_function)) void __cyg_profile_func_enter(void*, void*)
+{
+    ++rt::g_calls;
+    if(rt::g_budget && rt::g_calls > rt::g_budget && rt::g_guard_ptr && rt::g_guard_ptr->armed)
+    {
+        rt::g_guard_ptr->armed = false;
+        rt::g_guard_ptr->kind = 3;
+        rt::g_budget = 0;
+        siglongjmp(rt::g_guard_ptr->jb, 3);
+    }
+}
+extern "C" __attribute__((no_instrument_function)) void __cyg_profile_func_exit(void*, void*) {}
+#endif
 
 // run `stmt` guarded; afterwards rt::guard().kind tells what happened
 #define RT_GUARDED(stmt)                                   \
